@@ -199,7 +199,30 @@ let print_step (outs, sn) =
 let monitors : (Stdlib.String.t * (config -> z -> z -> ((op * out list) * snap) list -> (Model.string * bool) list)) list =
   [("core", fun cfg lu lp tr -> monitor cfg lu lp tr)]
 
-let handle case obs =
+(* ---- pair summary (suite "pair") ---- *)
+let handle_pair case obs =
+  let st = { toks = case } in
+  expect st "PS";
+  let na = int_of_string (next st) in let nb = int_of_string (next st) in
+  let p_ep st = let h = p_z st in let a = p_addr st in { ep_h = h; ep_pub = a } in
+  let ea = p_list na p_ep st in let eb = p_list nb p_ep st in
+  let links = p_list na (fun st -> p_list nb (fun st -> let r = p_bool st in let b = p_bool st in (r, b)) st) st in
+  let renom = p_bool st in let restarted = p_bool st in let same = p_bool st in
+  let tba = p_z st in let tbb = p_z st in let lossy = p_z st in let nren = p_z st in
+  let lastnom = if p_bool st then (let side = p_bool st in let lh = p_z st in let a = p_addr st in Some ((side, lh), a)) else None in
+  let su = { su_a = ea; su_b = eb; su_links = links; su_renom = renom; su_restarted = restarted; su_same_role = same;
+             su_tb_a = tba; su_tb_b = tbb; su_lossy = lossy; su_nrenom = nren; su_last_nom = lastnom } in
+  let so = { toks = obs } in
+  let p_final st = let conn = p_z st in let ctl = p_bool st in
+    let sel = if p_bool st then (let h = p_z st in let a = p_addr st in Some (h, a)) else None in
+    { sf_conn = conn; sf_ctl = ctl; sf_sel = sel } in
+  let fa = p_final so in let fb = p_final so in
+  let eca = p_bool so in let esa = p_bool so in let ecb = p_bool so in let esb = p_bool so in
+  let failed = List.filter_map (fun (n, ok) -> if ok then None else Some (ocaml_string n))
+      (c01_checks su fa fb eca esa ecb esb) in
+  (obs, failed)
+
+let handle_core case obs =
   match split_on ";" case with
   | [] -> failwith "empty case"
   | cfgt :: opts ->
@@ -237,4 +260,5 @@ let handle case obs =
         @ ["IMPL"] @ List.nth impl_steps i
       else obs), failed)
 
+let handle case obs = match case with "PS" :: _ -> handle_pair case obs | _ -> handle_core case obs
 let () = Driverlib.run handle
